@@ -5,7 +5,7 @@
    every such operation preserves the branch tip, revno, every revision's testament, the tags and - where the
    layout has a working tree - the tree's content and pending changes.
 
-   A layout is [tree, br, repo, above, fmt, sfmt, dirty]:
+   A layout is [tree, br, repo, above, fmt, mfmt, sfmt, dirty, km, pure]:
      tree  : the location has a working tree
      br    : "local" (own branch) | "bound" (own branch bound to the master = heavy checkout) | "ref" (branch reference to
              the master = lightweight checkout)
@@ -25,16 +25,18 @@ VARIABLES lay, content, last, steps
 vars == <<lay, content, last, steps>>
 Content0 == [tip |-> "r4", revno |-> 3, testaments |-> "T", tags |-> "G", basis |-> "r4"]
 InitLayouts == {l \in [tree : BOOLEAN, br : {"local", "bound", "ref"}, repo : {"own", "shared", "none"}, above : BOOLEAN,
-                       fmt : InitFormats, sfmt : InitFormats \cup {"none"}, dirty : BOOLEAN] :
-                    ValidLayout(l) /\ (l.above => l.sfmt = l.fmt)}
+                       fmt : InitFormats, mfmt : InitFormats, sfmt : InitFormats \cup {"none"}, dirty : BOOLEAN,
+                       km : {TRUE}, pure : {TRUE}] :
+                    ValidLayout(l) /\ (l.above => l.sfmt = l.fmt) /\ l.mfmt = l.fmt}
 Init == lay \in InitLayouts /\ content = Content0 /\ last = "none" /\ steps = 0
 Do(p) == /\ steps < MaxSteps /\ steps' = steps + 1 /\ last # "diverges"
          /\ lay' = p.lay /\ last' = p.out
          /\ UNCHANGED content
 \* (the leading conjunct keeps the action's own name and argument on the edges of the dumped state graph)
-Reconfigure(k) == k \in Targets /\ Do(Plan(lay, k))
-Upgrade(f) == f \in Formats /\ Do(PlanUpgrade(lay, f))
-UpgradeShared(f) == lay.above /\ Do(PlanUpgradeShared(lay, f))
+Reconfigure(k) == k \in Targets /\ Do(Impure(Plan(lay, k)))
+\* C52 is about going to the same or a NEWER format; attempts to go back are not explored
+Upgrade(f) == Rank(f) >= Rank(lay.fmt) /\ Do(PlanUpgrade(lay, f))
+UpgradeShared(f) == lay.above /\ Rank(f) >= Rank(lay.sfmt) /\ Do(PlanUpgradeShared(lay, f))
 Next == (\E k \in Targets : Reconfigure(k)) \/ (\E f \in Formats : Upgrade(f) \/ UpgradeShared(f))
 Spec == Init /\ [][Next]_vars
 
